@@ -420,3 +420,13 @@ pub open spec fn it_rem<I: Iterator>(it: I) -> Seq<I::Item> { IteratorSpec::rema
 #[verifier::prophetic]
 pub open spec fn it_ok<I: Iterator>(it: I) -> bool { IteratorSpec::obeys_prophetic_iter_laws(&it) && IteratorSpec::decrease(&it) is Some }
 } // verus!
+verus! {
+// ------------------------------------------------------------------ HashSet<String> looked up by &str (assumed std semantics)
+#[verifier::external_body]
+pub broadcast proof fn axiom_string_key_model()
+    ensures #[trigger] vstd::std_specs::hash::obeys_key_model::<String>() {}
+#[verifier::external_body]
+pub broadcast proof fn axiom_set_contains_str(m: Set<String>, k: &str)
+    ensures #[trigger] vstd::std_specs::hash::set_contains_borrowed_key::<String, str>(m, k) <==> (exists|s: String| #[trigger] m.contains(s) && s@ == k@) {}
+pub open spec fn set_has_str(m: Set<String>, k: Seq<char>) -> bool { exists|s: String| #[trigger] m.contains(s) && s@ == k }
+} // verus!
